@@ -102,6 +102,13 @@ def all_classes(bodies):
                         cls = first_matches_class(a[3])
                         if cls:
                             out.append(cls)
+    if not out:
+        # the same test spelled as a loop with an early return: `for c in s.bytes() { if !matches!(c, ..) { return false } }`
+        for body in bodies:
+            for lp in H.nodes(body, "loop"):
+                cls = first_matches_class(lp)
+                if cls:
+                    out.append(cls)
     return out
 
 
@@ -261,35 +268,92 @@ def _pushes(g):
             yield b, t, fn, strip(g.desc_op(t["args"][0])), strip(g.desc_op(t["args"][1]))
 
 
+VALUE_TYPES = ("::Val", "ObjValue", "ArrValue", "IStr")
+
+
+def _value_params(g, extra_types=()):
+    """parameters that carry user data, by type (positions and names of a private function's parameters are free to change)"""
+    return {i for i in range(1, g.arg_count + 1) if any(t in str(g.locals[i]) for t in VALUE_TYPES) or str(g.locals[i]) in extra_types}
+
+
 def run_text(prog):
     """every write of user text that bypasses the escaper is guarded by the format's `safe as a bare word` predicate"""
     obs = []
     n_raw = 0
-    table = [
-        # function, value-carrying params, guard predicate, block-scalar exemption
-        (M + "yaml::manifest_yaml_ex_buf", (1,), M + "yaml::bare_safe", True),
-        (M + "toml::escape_key_toml_buf", (1,), M + "toml::bare_allowed", False),
-        (M + "toml::manifest_value", (1,), None, False),
-        (M + "toml::manifest_table_internal", (1, 2), None, False),
-        (M + "toml::manifest_table", (1, 2), None, False),
-        (M + "toml::manifest_table_array", (1, 2), None, False),
+    roots = [
+        # function, extra value-carrying parameter types, guard predicate, block-scalar exemption
+        (M + "yaml::manifest_yaml_ex_buf", (), M + "yaml::bare_safe", True),
+        (M + "toml::escape_key_toml_buf", ("&str",), M + "toml::bare_allowed", False),
+        (M + "toml::manifest_value", (), M + "toml::bare_allowed", False),
+        (M + "toml::manifest_table_internal", (), M + "toml::bare_allowed", False),
+        (M + "toml::manifest_table", (), M + "toml::bare_allowed", False),
+        (M + "toml::manifest_table_array", (), M + "toml::bare_allowed", False),
     ]
-    for path, vparams, guard, block_ok in table:
+    # work list: (function, value params, guard, block exemption allowed, every caller already inside a block scalar); helpers of the
+    # same file that receive user text are analysed with the receiving parameters marked
+    work = []
+    state = {}
+    for path, xt, guard, block_ok in roots:
         g = prog.fn(path)
         if g is None:
             obs.append(bad(RULE, "raw-text:%s" % short_path(path), "", "%s not found" % path))
             continue
+        state[path] = [set(_value_params(g, xt)), guard, block_ok, False]
+        work.append(path)
+    order = []
+    while work:
+        path = work.pop(0)
+        if path in order:
+            order.remove(path)
+        order.append(path)
+        g = prog.fn(path)
+        vparams, guard, block_ok, all_in_block = state[path]
+        block_marks = [b for b, t, fn, dst, d in _pushes(g) if d in (("const", 124), ("const", '"|-"'), ("const", '"|"'))]
+        for b, t in g.calls():
+            c = t.get("res") or t.get("fn") or ""
+            cf = prog.fn(c)
+            if cf is None or g.is_cleanup(b) or cf.file != g.file or c == guard or "escape_string" in c or "::{closure" in c:
+                continue
+            marked = {j + 1 for j, a in enumerate(t["args"]) if j < cf.arg_count and str(cf.locals[j + 1]) in ("&str", "&alloc::string::String", "alloc::string::String")
+                      and _is_user_text(strip(g.desc_op(a)), vparams)}
+            if not marked:
+                continue
+            inb = all_in_block or (block_ok and any(g.block_dominates(m, b) for m in block_marks))
+            if c in state:
+                st = state[c]
+                changed = not marked <= st[0] or (st[3] and not inb)
+                st[0] |= marked
+                st[3] = st[3] and inb
+                if changed and c not in [r[0] for r in roots]:
+                    work.append(c)
+            else:
+                state[c] = [set(_value_params(cf)) | marked, guard, block_ok, inb]
+                work.append(c)
+    # a helper's writes count once per call site that hands it user text (merging two copies of a loop into one helper does not
+    # lower the number of confirmed instances)
+    rootset = {r[0] for r in roots}
+    ncalls = {}
+    for path in order:
+        g = prog.fn(path)
+        for b, t in g.calls():
+            c = t.get("res") or t.get("fn") or ""
+            if c in state and c not in rootset and not g.is_cleanup(b) and \
+                    any(_is_user_text(strip(g.desc_op(a)), state[path][0]) for j, a in enumerate(t["args"]) if j + 1 in state[c][0]):
+                ncalls[c] = ncalls.get(c, 0) + 1
+    for path in order:
+        g = prog.fn(path)
+        vparams, guard, block_ok, all_in_block = state[path]
         block_marks = [b for b, t, fn, dst, d in _pushes(g) if d in (("const", 124), ("const", '"|-"'), ("const", '"|"'))]
         k = 0
         for b, t, fn, dst, d in _pushes(g):
             if fn.endswith("::push") or not _is_user_text(d, vparams):
                 continue
-            n_raw += 1
+            n_raw += max(1, ncalls.get(path, 1))
             k += 1
             key = "raw-text:%s#%d" % (short_path(path), k)
             guarded = guard is not None and any(f[2][1] is True and strip(f[2][0])[0] == "call" and
                                                 (strip(f[2][0])[1] == guard or ("Iterator" in str(strip(f[2][0])[1]) and str(strip(f[2][0])[1]).endswith("::all"))) for f in g.facts_at(b))
-            in_block = block_ok and any(g.block_dominates(m, b) for m in block_marks)
+            in_block = all_in_block or (block_ok and any(g.block_dominates(m, b) for m in block_marks))
             if guarded:
                 obs.append(ok(RULE, key, site(g, t["line"]), "unescaped text `%s` is written only where the bare-word test (%s or its inlined class test) holds" % (show(d)[:60], short_path(guard))))
             elif in_block:
@@ -303,11 +367,12 @@ def run_text(prog):
         if g is None:
             obs.append(bad(RULE, key, "", "%s not found" % path))
             continue
-        on_path = lambda d: contains(d, lambda x: x[0] == "param" and x[1] == 2)
+        pp = g.param(ty="IStr")
+        on_path = lambda d, pp=pp: contains(d, lambda x: x[0] == "param" and x[1] == pp)
         walks = [b for b, t in g.calls() if not g.is_cleanup(b) and (t.get("fn") or "").endswith(("<impl [T]>::iter", "IntoIterator::into_iter"))
                  and t["args"] and on_path(strip(g.desc_op(t["args"][0]))) and "Enumerate" not in str((t.get("argtys") or [""])[0])]
         escs = [b for b, t in g.calls() if not g.is_cleanup(b) and (t.get("res") or t.get("fn") or "").endswith("escape_key_toml_buf")
-                and on_path(strip(g.desc_op(t["args"][0])))]
+                and any(on_path(strip(g.desc_op(a))) for a in t["args"])]
         if walks and len(escs) >= 1 and all(any(e in g.reach_from(w) for e in escs) for w in walks):
             obs.append(ok(RULE, key, site(g), "the path components are written through escape_key_toml_buf"))
         else:
@@ -375,21 +440,26 @@ def run_toml_header(prog):
         if not headers:
             obs.append(bad(RULE, key, site(g), "no `[` header write found"))
             continue
-        # error exits: blocks that build the return value from a residual / Err
+        # blocks that produce a success value (`_0 = Ok(..)`) and can be reached from the entry without passing a header write:
+        # at each of them `obj.is_empty() == false` has to be a known fact (however the skip condition is spelled or staged)
         errs = {b for b, t in g.calls() if "FromResidual" in (t.get("fn") or "")}
-        nonempty_edges = {(u, v) for u, v, f in g._cond_edge_list()
-                          if f[1] is False and f[0][0] == "call" and f[0][1] == "jrsonnet_evaluator::obj::ObjValue::is_empty"}
         seen = {0}
         st = [0]
         while st:
             b = st.pop()
-            for s in g.succs[b]:
-                if s in seen or s in headers or s in errs or (b, s) in nonempty_edges or g.is_cleanup(s):
+            for s2 in g.succs[b]:
+                if s2 in seen or s2 in headers or s2 in errs or g.is_cleanup(s2):
                     continue
-                seen.add(s)
-                st.append(s)
-        rets = [b for b in g.returns() if b in seen]
-        if rets:
+                seen.add(s2)
+                st.append(s2)
+        offenders = []
+        for b in sorted(seen):
+            if not any(x[0] == "a" and x[1] == [0] and x[2][0] == "agg" and str(x[2][3]) == "Ok" for x in g.stmts(b)):
+                continue
+            nonempty = any(strip(f[2][0])[0] == "call" and str(strip(f[2][0])[1]).endswith("ObjValue::is_empty") and f[2][1] is False for f in g.facts_at(b))
+            if not nonempty:
+                offenders.append(b)
+        if offenders:
             obs.append(bad(RULE, key, site(g), "a success return is reachable without writing the `[..]` header and without knowing that the table is "
                            "non-empty: an empty table is dropped from the output"))
         else:
@@ -408,8 +478,8 @@ NAMES_BY_DESIGN = [
 
 MUST_ESCAPE = [
     ("<jrsonnet_stdlib::manifest::python::PythonFormat as jrsonnet_evaluator::manifest::ManifestFormat>::manifest_buf", 2, "Str", "escape_string_json_buf"),
-    (M + "toml::manifest_value", 1, "Str", "escape_string_strict_buf"),
-    (M + "xml::manifest_jsonml", 1, "String", "escape_string_xml_buf"),
+    (M + "toml::manifest_value", "::Val", "Str", "escape_string_strict_buf"),        # private: the value parameter is found by type
+    (M + "xml::manifest_jsonml", "JSONMLValue", "String", "escape_string_xml_buf"),
 ]
 
 
@@ -432,6 +502,8 @@ def run_escape(prog):
         if g is None:
             obs.append(bad(RULE, key, "", "%s not found" % path))
             continue
+        if isinstance(param, str):
+            param = g.param(ty=param)
         start = None
         for u, v, f in g._cond_edge_list():
             if strip(f[0])[:2] == ("discr", ("param", param)) and f[1] == ("variant", var) and start is None:
